@@ -1134,7 +1134,7 @@ class CircuitDAG(CircuitBase):
                 edge = self.edge_from_reg(in_edges, f"{reg_type}{register}")
                 next_node = edge[0]
 
-                if node in self.node_dict["one-qubit"]:
+                if self._is_one_qubit_gate(node):
                     node_info = self.dag.nodes[node]
                     op = node_info["op"]
 
@@ -1143,7 +1143,7 @@ class CircuitDAG(CircuitBase):
                     else:
                         gate_list.append(op.__class__)
                     self.remove_op(node)
-                if next_node not in self.node_dict["one-qubit"] and gate_list:
+                if not self._is_one_qubit_gate(next_node) and gate_list:
                     # insert new op here
                     out_edges = self.dag.out_edges(nbunch=next_node, keys=True)
                     insert_edge = self.edge_from_reg(out_edges, f"{reg_type}{register}")
@@ -1152,6 +1152,20 @@ class CircuitDAG(CircuitBase):
                         [insert_edge],
                     )
                     gate_list = []
+
+    def _is_one_qubit_gate(self, node):
+        """
+        Whether a node holds a one-qubit gate that can be put into a OneQubitGateWrapper
+        (a measurement is labelled one-qubit as well, but it is not a gate)
+
+        :param node: a node id
+        :type node: int or str
+        :return: True if the node's operation is a one-qubit gate
+        :rtype: bool
+        """
+        return node in self.node_dict.get("one-qubit", []) and isinstance(
+            self.dag.nodes[node]["op"], ops.OneQubitOperationBase
+        )
 
     def assign_noise(self, noise_model_map):
         """
